@@ -4,6 +4,7 @@ import Cicada.Model.Execute
 import Cicada.Model.Subst
 import Cicada.Model.Core
 import Cicada.Spec.C03
+import Cicada.Spec.C01
 /-!
 `cicada_model` — runs the Lean model (the very definitions the theorems are about) and the
 reference semantics on the cases of the correspondence protocol.
@@ -73,6 +74,15 @@ def envIn (s : String) : EnvSpec :=
     | "a=" => { e with env := { e.env with aliases := pairsIn v } }
     | "s=" => { e with env := { e.env with status := v.toInt?.getD 0 } }
     | "c=" => { e with cmds := pairsIn v }
+    | "g=" =>
+      -- glob oracle: `hexpattern:hexmatch/hexmatch/…` (`!` = pattern error, `[]` = no match); unlisted patterns match nothing
+      let tbl : List (Str × Option (List Str)) := if v = "[]" ∨ v = "" then [] else
+        (v.splitOn ",").filterMap (fun p => match p.splitOn ":" with
+          | [a, b] => some (unhex a, if b = "!" then none else if b = "[]" then some [] else some ((b.splitOn "/").map unhex))
+          | _ => none)
+      { e with env := { e.env with glob := fun pat => match tbl.find? (fun q => q.1 = pat) with
+          | some q => q.2
+          | none => some [] } }
     | _ => e) {}
 
 def EnvSpec.subst (e : EnvSpec) : SubstEnv :=
@@ -112,6 +122,26 @@ def planOut : Except String Plan → String
     "ok|" ++ (if p.background then "1" else "0") ++ "|" ++ pairsOut (canonEnvs p.envs) ++ "|" ++ cmds
   | .error e => "err|" ++ hex e.toList
 
+def obsOut (o : C01.Obs) : String :=
+  let st := if o.stages.isEmpty then "[]" else ";".intercalate (o.stages.map (fun (argv, rs, fr) =>
+    hexList argv ++ "/" ++ redirsOut rs ++ "/" ++ (match fr with
+      | some (a, b) => hex a ++ ":" ++ hex b
+      | none => "none")))
+  "ok|" ++ (if o.background then "1" else "0") ++ "|" ++ pairsOut (canonEnvs o.envs) ++ "|" ++ st
+
+def parseArgs (s : String) : List (C01.Style × Str) :=
+  if s = "[]" then [] else
+  (s.splitOn ",").filterMap (fun p => match p.splitOn ":" with
+    | [k, a] => (match k with
+      | "s" => some (C01.Style.sq, unhex a)
+      | "d" => some (C01.Style.dq, unhex a)
+      | "e" => some (C01.Style.esc, unhex a)
+      | _ => none)
+    | _ => none)
+
+def parseCtx : String → C01.Ctx
+  | "p" => .pipe | "s" => .semi | "n" => .and | "o" => .or | _ => .alone
+
 def answer (stream : String) (f : Array String) : Ans :=
   let g (i : Nat) : String := f.getD i "-"
   match stream with
@@ -150,7 +180,7 @@ def answer (stream : String) (f : Array String) : Ans :=
   | "xhome" => { m := toksOut (expandHome (envIn (g 0)).env (toksIn (g 1))) }
   | "xenv" => { m := toksOut (expandEnv (envIn (g 0)).env (toksIn (g 1))) }
   | "xbrace" => ansOf toksOut (expandBrace (toksIn (g 0)))
-  | "xrange" => ansOf toksOut (expandBraceRange (toksIn (g 0)))
+  | "xrange" => { m := toksOut (expandBraceRange (toksIn (g 0))) }
   | "xall" =>
     let ts := toksIn (g 1)
     ansOf toksOut (doExpansion (envIn (g 0)).subst (planFuel (tokensToLine ts)) ts)
@@ -182,6 +212,38 @@ def answer (stream : String) (f : Array String) : Ans :=
   | "plan" =>
     let line := unhex (g 1)
     ansOf planOut (planOf (envIn (g 0)).subst (planFuel line) line)
+  | "plan1" =>
+    -- plan of the first pipeline of a line: line_to_cmds, then from_line on the first item
+    let line := unhex (g 1)
+    let es := envIn (g 0)
+    let a : Ans := match lineToCmds line with
+      | [] => { m := "empty" }
+      | item :: _ => ansOf planOut (planOf es.subst (planFuel item) item)
+    if g 2 = "c01" then
+      let p := unhex (g 3)
+      let args := parseArgs (g 4)
+      let ctx := parseCtx (g 5)
+      if C01.renderLine p args ctx ≠ line then { a with s := "RENDER-MISMATCH" } else
+      let cls := C01.classify es.env p args ctx
+      { a with s := if cls.startsWith "outside-statement" then "-" else obsOut (C01.expectedObs p args ctx),
+               guard := if C01.guard es.env p args then "1" else "0",
+               cls := cls }
+    else a
+  | "globneeds" =>
+    -- which patterns will `expand_glob` hand to the glob crate for this case (f2: line | line1 | tokens)
+    let es := envIn (g 0)
+    let ts : List Tok := match g 2 with
+      | "tokens" => toksIn (g 1)
+      | "line1" => (match lineToCmds (unhex (g 1)) with
+          | [] => []
+          | item :: _ => parseLine item)
+      | _ => parseLine (unhex (g 1))
+    let t2 := expandEnv es.env (expandHome es.env (expandAlias es.env ts))
+    let pats := match expandBrace t2 with
+      | .ok t3 => (t3.filter (fun (sep, text) => sep = [] ∧ text.contains '*' ∧
+          ¬ ((trim text).head? = some '\'' ∨ (trim text).head? = some '"'))).map (·.2)
+      | _ => []
+    { m := hexList pats }
   | "head" =>
     let line := unhex (g 1)
     let es := envIn (g 0)
